@@ -83,7 +83,16 @@ def oracle_moments(rng, d):
         cd2 = con.conic_form()
         if sum(len(blk[3]) for blk in cd2) == 0:
             return None          # a constraint without rows (every AGE cone trivial): there is no compiled system to compare (compiling it alone raises)
-        A, b, K, _, _, svid2col = cl.compile_constrained_system([con])
+        A, b, K, vmap_, vars_, svid2col = cl.compile_constrained_system([con])
+        # variable_map says where each component of each Variable sits: the column of its scalar variable, -1 for a component that takes no part (e.g. a
+        # coordinate of mu_i that no exponent difference touches)
+        for v_ in vars_:
+            ids_ = [int(t) for t in v_.scalar_variable_ids]
+            got_ = [int(t) for t in np.asarray(vmap_[v_.name]).ravel().tolist()]
+            want_ = [int(svid2col[i]) if i in svid2col else -1 for i in ids_]
+            if got_ != want_:
+                return ('variable_map[%s] = %s but the scalar variables %s of that Variable sit in the columns %s of the compiled dual SAGE constraint (-1: takes no part)'
+                        % (v_.name, got_, ids_, want_))
     A = np.asarray(A.todense(), dtype=float)
     E = np.zeros(A.shape)
     eb = []
@@ -105,6 +114,57 @@ def oracle_moments(rng, d):
         k = np.argwhere(~np.isclose(A, E, rtol=1e-12, atol=0))
         return ('the compiled matrix differs from the stacked blocks of the dual SAGE constraint, e.g. entry %s: compiled %r, block %r'
                 % (k[0].tolist() if len(k) else 'b', float(A[tuple(k[0])]) if len(k) else None, float(E[tuple(k[0])]) if len(k) else None))
+    return None
+
+
+def oracle_interior_coordinate(rng):
+    """exponent vectors that all share an interior coordinate (n = 3, the middle coordinate is constant): the compact dual rows never mention mu_i[1], so
+    that component takes no part while mu_i[0] and mu_i[2] do; variable_map reports exactly that, and the moment vector assembled THROUGH variable_map satisfies
+    the compiled system"""
+    import sageopt.coniclifts as cl
+    from harness.props.c07 import in_cone
+    with warnings.catch_warnings():
+        warnings.simplefilter('ignore')
+        for mid in (0.0, 1.0):
+            alpha = np.array([[0.0, mid, 0.0], [2.0, mid, 0.0], [0.0, mid, 2.0], [1.0, mid, 1.0], [1.0, mid, 0.0]])
+            v = cl.Variable(shape=(5,), name='intc_v')
+            con = cl.DualSageCone(v, alpha, None, 'intc', settings={'compact_dual': True})
+            A, b, K, vmap_, vars_, svid2col = cl.compile_constrained_system([con])
+            for v_ in vars_:
+                ids_ = [int(t) for t in v_.scalar_variable_ids]
+                got_ = [int(t) for t in np.asarray(vmap_[v_.name]).ravel().tolist()]
+                want_ = [int(svid2col[i]) if i in svid2col else -1 for i in ids_]
+                if got_ != want_:
+                    return ('exponents with a constant middle coordinate: variable_map[%s] = %s but its scalar variables sit in the columns %s (-1: takes no part)'
+                            % (v_.name, got_, want_))
+            x = np.array([rng.randint(-2, 2) / 2.0, rng.randint(-2, 2) / 2.0, rng.randint(-2, 2) / 2.0])
+            mom = np.exp(alpha @ x)
+            z = np.zeros(A.shape[1])
+            for v_ in vars_:
+                cols = np.asarray(vmap_[v_.name]).ravel()
+                if v_.name == v.name:
+                    vals = mom
+                elif v_.name.startswith('mu['):
+                    i_ = int(v_.name.split('[')[1].split(']')[0])
+                    vals = mom[i_] * x
+                else:
+                    return None
+                for c_, t_ in zip(cols.tolist(), np.asarray(vals).ravel().tolist()):
+                    if c_ >= 0:
+                        z[int(c_)] = t_
+            r = np.asarray(A @ z + b).ravel()
+            i0 = 0
+            for co in K:
+                seg = r[i0:i0 + co.len].tolist()
+                i0 += co.len
+                if co.type == 'e':
+                    xx, yy, zz = seg
+                    ok = (zz > 1e-300 and zz * math.exp(min(xx / zz, 700)) <= yy * (1 + 1e-9) + 1e-9) or (abs(zz) <= 1e-12 and xx <= 1e-12 and yy >= -1e-12)
+                else:
+                    ok = in_cone(co.type, [t_ + (1e-9 if co.type == '+' else 0.0) for t_ in seg]) if co.type != '0' else all(abs(t_) <= 1e-9 for t_ in seg)
+                if not ok:
+                    return ('exponents with a constant middle coordinate: the moment vector of x = %s with mu_i = v_i x, placed through variable_map, violates a %s-block of '
+                            'the compiled dual SAGE constraint (residual %s)' % (x.tolist(), co.type, seg))
     return None
 
 
@@ -147,6 +207,11 @@ def oracle_declared_domains(rng):
 
 
 def run(ctx):
+    why = oracle_interior_coordinate(ctx.rng)
+    ctx.evaluations += 2
+    ctx.suites['interior_coordinate'] = {'cases': 2, 'failure': why}
+    if why:
+        ctx.problem('oracle', 'property fails on the implementation: ' + why, inputs={'suite': 'interior_coordinate'}, failing_input_found=True)
     why = oracle_declared_domains(ctx.rng)
     ctx.evaluations += 24
     ctx.suites['declared_domains'] = {'cases': 24, 'failure': why}
